@@ -133,7 +133,7 @@ def absorb_kernel_helpers(F, is_kernel_candidate, max_depth=3, max_blocks=400, i
                 # (a kernel-shaped function called from an entry point is a real kernel, not a helper of the entry)
                 absorbed.add(q)
                 changed = True
-            elif q in cands and not any(t['callee'] == 'std::iter::Iterator::next' for bi, t in calls_in(b)) and \
+            elif q in cands and (is_kernel is None or is_kernel(b)) and not any(t['callee'] == 'std::iter::Iterator::next' for bi, t in calls_in(b)) and \
                     any(t.get('res') in cands and t.get('res') != q for bi, t in calls_in(b, lambda t: t.get('local'))):
                 # a private dispatcher: kernel-shaped parameters, no iteration of its own, forwards to kernels;
                 # it is part of the entry points that call it
@@ -143,14 +143,14 @@ def absorb_kernel_helpers(F, is_kernel_candidate, max_depth=3, max_blocks=400, i
         return absorbed, {}
     new = {}
     for q, b in bodies.items():
-        if q in absorbed:
-            continue
-        if not any(t.get('res') in absorbed for bi, t in calls_in(b, lambda t: t.get('local'))):
+        # (absorbed helpers are rewritten too: rules that still look at them, like the sibling comparison, see the same
+        # flattened form on both sides)
+        if not any(t.get('res') in absorbed and t.get('res') != q for bi, t in calls_in(b, lambda t: t.get('local'))):
             continue
         nb = copy.deepcopy({k: v for k, v in b.items() if k != '_facts'})
         depth = 0
         while depth < max_depth:
-            sites = [(bi, t) for bi, t in calls_in(nb, lambda t: t.get('local') and t.get('res') in absorbed)]
+            sites = [(bi, t) for bi, t in calls_in(nb, lambda t: t.get('local') and t.get('res') in absorbed and t.get('res') != q)]
             if not sites or len(nb['blocks']) > max_blocks:
                 break
             for bi, t in sites:
